@@ -93,8 +93,8 @@ func oracleC03(c mergeCase, o mergeObs) string {
 				return fmt.Sprintf("type %s has kind %s in service %d and %s in the gateway schema", d.Name, d.Kind, si, md.Kind)
 			}
 			for _, f := range d.Fields {
-				if d.Name == "Query" && f.Name == "node" && isNodeFld(f) {
-					continue // the Relay entry point: covered by the model correspondence and the listed finding
+				if c.Hide && d.Name == "Query" && f.Name == "node" && isNodeFld(f) {
+					continue // the Relay entry point is what the node-hiding merger takes out
 				}
 				mf := findFld(md, f.Name)
 				if mf == nil {
@@ -331,9 +331,6 @@ func typesKey(ts []coqprint.CanonDef) string {
 	for _, d := range ts {
 		var fs []string
 		for _, f := range d.Fields {
-			if d.Name == "Query" && f.Name == "node" && isNodeFld(f) {
-				continue // listed finding C05-node-order / C03-node-lost: replayed separately
-			}
 			fs = append(fs, f.Name+":"+fieldSig(f))
 		}
 		sort.Strings(fs)
@@ -401,6 +398,9 @@ func driveMerge(prop string, seed int64, tier, out, replay string) {
 			// a shared value type with the same fields everywhere, implementing an interface in one service only
 			{"type Query { a: Audit changes: [Stamped] }\ninterface Stamped { at: String }\ntype Audit implements Stamped { at: String by: String }\n", "type Query { b: Audit }\ntype Audit { at: String by: String }\n"},
 			{"type Query { a: Money }\ntype Money { amount: Int unit: String }\n", "type Query { b: Money priced: [Priced] }\ninterface Priced { amount: Int }\ntype Money implements Priced { amount: Int unit: String }\n", "type Query { c: Money }\ntype Money { amount: Int unit: String }\n"},
+			// the Relay entry point declared by some of the services only (fix of C03-node-lost / C05-node-order)
+			{"interface Node { id: ID! }\ntype N0 implements Node { id: ID! a: String }\ntype Query { qa: N0 node(id: ID!): Node }\n", "interface Node { id: ID! }\ntype N0 implements Node { id: ID! b: String }\ntype Query { qb: N0 }\n"},
+			{"interface Node { id: ID! }\ntype N0 implements Node { id: ID! a: String }\ntype Query { qa: N0 }\n", "interface Node { id: ID! }\ntype N0 implements Node { id: ID! b: String }\ntype Query { qb: N0 node(id: ID!): Node }\n", "interface Node { id: ID! }\ntype N1 implements Node { id: ID! c: N1 }\ntype Query { qc: N1 }\n"},
 		}
 		for _, sdls := range handSets {
 			hc := mergeCase{Origin: "mergeable"}
